@@ -17,9 +17,9 @@ theorem ByteRel.eq : ByteRel (fun a b => a = b) := ⟨fun _ => rfl, fun h1 h2 =>
 theorem ByteRel.le : ByteRel (fun a b => a.length ≤ b.length) :=
   ⟨fun _ => Nat.le_refl _, fun h1 h2 => by simp only [List.length_append]; omega⟩
 
-/-- reader `rd` accepts only what writer `wr` emits (up to `R`) -/
-def CanonRW (R : Bytes → Bytes → Prop) (rd : Rd) (wr : Wr) : Prop :=
-  ∀ ty bare na bs v rest, rd ty bare na bs = .ok (v, rest) →
+/-- reader `rd` accepts only what writer `wr` emits (up to `R`), on the types of `S` -/
+def CanonRW (R : Bytes → Bytes → Prop) (S : Nat → Bool) (rd : Rd) (wr : Wr) : Prop :=
+  ∀ ty bare na bs v rest, S ty = true → rd ty bare na bs = .ok (v, rest) →
     ∃ pre w, bs = pre ++ rest ∧ wr ty bare na v = .ok w ∧ R w pre
 
 /-! ### prefix monotonicity of nat-argument evaluation -/
@@ -69,20 +69,23 @@ theorem fieldPresent_append {f : Field} {acc : List (Option Val)} {params : List
 
 /-! ### loops -/
 
-theorem readFields_canonical {R : Bytes → Bytes → Prop} (hR : ByteRel R) {rd : Rd} {wr : Wr} (hrw : CanonRW R rd wr) (params : List Nat) :
+theorem readFields_canonical {R : Bytes → Bytes → Prop} (hR : ByteRel R) {S : Nat → Bool} {rd : Rd} {wr : Wr}
+    (hrw : CanonRW R S rd wr) (params : List Nat) :
     ∀ (fields : List Field) (acc : List (Option Val)) (bs : Bytes) (out : List (Option Val)) (rest : Bytes),
+      (∀ f ∈ fields, S f.ty = true) →
       readFieldsWith rd params fields acc bs = .ok (out, rest) →
       ∃ tail pre w, out = acc ++ tail ∧ bs = pre ++ rest ∧ R w pre ∧
         ∀ ext, writeFieldsWith wr params (out ++ ext) fields tail = .ok w := by
   intro fields
   induction fields with
   | nil =>
-    intro acc bs out rest h
+    intro acc bs out rest _ h
     simp only [readFieldsWith] at h
     injection h with h; injection h with h1 h2; subst h1; subst h2
     exact ⟨[], [], [], by simp, by simp, hR.refl _, fun _ => rfl⟩
   | cons f fs ih =>
-    intro acc bs out rest h
+    intro acc bs out rest hS h
+    have hS' : ∀ g ∈ fs, S g.ty = true := fun g hg => hS g (by simp [hg])
     simp only [readFieldsWith] at h
     cases hp : fieldPresent f acc params with
     | none => simp [hp] at h
@@ -98,8 +101,8 @@ theorem readFields_canonical {R : Bytes → Bytes → Prop} (hR : ByteRel R) {rd
           | ok p =>
             obtain ⟨v, bs'⟩ := p
             simp only [hr] at h
-            obtain ⟨pre1, w1, e1, hw1, r1⟩ := hrw _ _ _ _ _ _ hr
-            obtain ⟨tail, pre2, w2, e2, e3, r2, hw2⟩ := ih _ _ _ _ h
+            obtain ⟨pre1, w1, e1, hw1, r1⟩ := hrw _ _ _ _ _ _ (hS f (by simp)) hr
+            obtain ⟨tail, pre2, w2, e2, e3, r2, hw2⟩ := ih _ _ _ _ hS' h
             refine ⟨some v :: tail, pre1 ++ pre2, w1 ++ w2, by simp [e2], by simp [e1, e3], hR.app r1 r2, ?_⟩
             intro ext
             have eo : out ++ ext = acc ++ ([some v] ++ tail ++ ext) := by simp [e2]
@@ -108,7 +111,7 @@ theorem readFields_canonical {R : Bytes → Bytes → Prop} (hR : ByteRel R) {rd
             simp only [hw1, hw2 ext]
         | false =>
           simp only [hp, hna] at h
-          obtain ⟨tail, pre2, w2, e2, e3, r2, hw2⟩ := ih _ _ _ _ h
+          obtain ⟨tail, pre2, w2, e2, e3, r2, hw2⟩ := ih _ _ _ _ hS' h
           refine ⟨none :: tail, pre2, w2, by simp [e2], e3, r2, ?_⟩
           intro ext
           have eo : out ++ ext = acc ++ ([none] ++ tail ++ ext) := by simp [e2]
@@ -116,7 +119,8 @@ theorem readFields_canonical {R : Bytes → Bytes → Prop} (hR : ByteRel R) {rd
           rw [eo, fieldPresent_append hp, natArgVals_append hna, ← eo]
           simp only [hw2 ext]
 
-theorem readElems_canonical {R : Bytes → Bytes → Prop} (hR : ByteRel R) {rd : Rd} {wr : Wr} (hrw : CanonRW R rd wr) (f : Field) (na : List Nat) :
+theorem readElems_canonical {R : Bytes → Bytes → Prop} (hR : ByteRel R) {S : Nat → Bool} {rd : Rd} {wr : Wr}
+    (hrw : CanonRW R S rd wr) (f : Field) (hS : S f.ty = true) (na : List Nat) :
     ∀ (n : Nat) (bs : Bytes) (vs : List Val) (rest : Bytes),
       readElemsWith rd f na n bs = .ok (vs, rest) →
       ∃ pre w, bs = pre ++ rest ∧ writeElemsWith wr f na vs = .ok w ∧ R w pre ∧ vs.length = n := by
@@ -141,7 +145,7 @@ theorem readElems_canonical {R : Bytes → Bytes → Prop} (hR : ByteRel R) {rd 
         obtain ⟨vs', bs''⟩ := q
         simp only [hr2] at h
         injection h with h; injection h with h1 h2; subst h1; subst h2
-        obtain ⟨pre1, w1, e1, hw1, r1⟩ := hrw _ _ _ _ _ _ hr
+        obtain ⟨pre1, w1, e1, hw1, r1⟩ := hrw _ _ _ _ _ _ hS hr
         obtain ⟨pre2, w2, e2, hw2, r2, hl⟩ := ih _ _ _ hr2
         refine ⟨pre1 ++ pre2, w1 ++ w2, by simp [e1, e2], ?_, hR.app r1 r2, by simp [hl]⟩
         simp only [writeElemsWith, hw1, hw2]
@@ -152,6 +156,38 @@ theorem Desc.get?_mem {d : Desc} {ty : Nat} {i : Inst} (h : d.get? ty = some i) 
   unfold Desc.get? at h
   rw [← Array.getElem?_toList] at h
   exact List.mem_of_getElem? h
+
+theorem Desc.get?_lt {d : Desc} {ty : Nat} {i : Inst} (h : d.get? ty = some i) : ty < d.insts.size := by
+  unfold Desc.get? at h
+  exact (Array.getElem?_eq_some_iff.mp h).1
+
+theorem Desc.closed_get {d : Desc} {S : Nat → Bool} (h : d.closed S = true) {ty : Nat} {i : Inst}
+    (hg : d.get? ty = some i) (hS : S ty = true) : ∀ r ∈ i.refs, S r = true := by
+  have := (List.all_eq_true.mp h) ty (List.mem_range.mpr (Desc.get?_lt hg))
+  simp only [hS, Bool.not_true, Bool.false_or, hg] at this
+  exact List.all_eq_true.mp this
+
+theorem Desc.allOn_get {d : Desc} {S : Nat → Bool} {p : Inst → Bool} (h : d.allOn S p = true) {ty : Nat} {i : Inst}
+    (hg : d.get? ty = some i) (hS : S ty = true) : p i = true := by
+  have := (List.all_eq_true.mp h) ty (List.mem_range.mpr (Desc.get?_lt hg))
+  simpa only [hS, Bool.not_true, Bool.false_or, hg] using this
+
+theorem Desc.allOn_all {d : Desc} {p : Inst → Bool} (h : d.insts.toList.all p = true) (S : Nat → Bool) : d.allOn S p = true := by
+  apply List.all_eq_true.mpr
+  intro i _
+  cases hS : S i with
+  | false => rfl
+  | true =>
+    cases hg : d.get? i with
+    | none => rfl
+    | some inst => exact (List.all_eq_true.mp h) _ (Desc.get?_mem hg)
+
+theorem Desc.closed_all (d : Desc) : d.closed allInsts = true := by
+  apply List.all_eq_true.mpr
+  intro i _
+  cases hg : d.get? i with
+  | none => rfl
+  | some inst => simp [allInsts]
 
 theorem Desc.noDict_get {d : Desc} (h : d.noDict = true) {ty : Nat} {a : ArrayD} : d.get? ty ≠ some (.dict a) := by
   intro hg
@@ -343,22 +379,27 @@ theorem dictNormalize_write (wr : Wr) (f : Field) (na : List Nat) (k : PrimK) (v
 /-! ### the main induction -/
 
 theorem readTL1_canonR {R : Bytes → Bytes → Prop} (hR : ByteRel R) (cfg : Cfg) (d : Desc)
-    (hnb : d.noBit = true) (hD : d.noDict = true ∨ ∀ a b : Bytes, R a b ↔ a.length ≤ b.length) :
-    ∀ fuel, CanonRW R (readTL1 cfg d fuel) (writeTL1 d fuel) := by
+    (S : Nat → Bool) (hcl : d.closed S = true) (hnb : d.allOn S (fun i => !i.isBitPrim) = true)
+    (hD : d.allOn S (fun i => !i.isDict) = true ∨ ∀ a b : Bytes, R a b ↔ a.length ≤ b.length) :
+    ∀ fuel, CanonRW R S (readTL1 cfg d fuel) (writeTL1 d fuel) := by
   intro fuel
   induction fuel with
-  | zero => intro ty bare na bs v rest h; simp [readTL1] at h
+  | zero => intro ty bare na bs v rest _ h; simp [readTL1] at h
   | succ fuel ih =>
-    intro ty bare params bs v rest h
+    intro ty bare params bs v rest hSty h
     simp only [readTL1] at h
     cases hg : d.get? ty with
     | none => simp only [hg] at h; cases h
     | some inst =>
       simp only [hg] at h
+      have hrefs := Desc.closed_get hcl hg hSty
       cases inst with
       | prim k =>
         simp only at h
-        have hk : k ≠ .bit := by intro e; subst e; exact Desc.noBit_get hnb hg
+        have hk : k ≠ .bit := by
+          intro e; subst e
+          have := Desc.allOn_get hnb hg hSty
+          simp [Inst.isBitPrim] at this
         obtain ⟨pre, e, hw⟩ := readPrim_canonical hk h
         exact ⟨pre, pre, e, by simp only [writeTL1, hg, hw], hR.refl _⟩
       | struct s =>
@@ -372,7 +413,7 @@ theorem readTL1_canonR {R : Bytes → Bytes → Prop} (hR : ByteRel R) (cfg : Cf
             obtain ⟨fs, r⟩ := p
             simp only [hr] at h
             injection h with h; injection h with h1 h2; subst h1; subst h2
-            obtain ⟨tail, pre, w, e1, e2, r1, hw⟩ := readFields_canonical hR ih params _ _ _ _ _ hr
+            obtain ⟨tail, pre, w, e1, e2, r1, hw⟩ := readFields_canonical hR ih params _ _ _ _ _ (fun f hf => hrefs _ (by simp only [Inst.refs]; exact List.mem_map_of_mem hf)) hr
             simp only [List.nil_append] at e1; subst e1
             have := hw []
             simp only [List.append_nil] at this
@@ -391,7 +432,7 @@ theorem readTL1_canonR {R : Bytes → Bytes → Prop} (hR : ByteRel R) (cfg : Cf
               obtain ⟨fs, r⟩ := p
               simp only [hr] at h
               injection h with h; injection h with h1 h2; subst h1; subst h2
-              obtain ⟨tail, pre, w, e1, e2, r1, hw⟩ := readFields_canonical hR ih params _ _ _ _ _ hr
+              obtain ⟨tail, pre, w, e1, e2, r1, hw⟩ := readFields_canonical hR ih params _ _ _ _ _ (fun f hf => hrefs _ (by simp only [Inst.refs]; exact List.mem_map_of_mem hf)) hr
               simp only [List.nil_append] at e1; subst e1
               have := hw []
               simp only [List.append_nil] at this
@@ -420,9 +461,11 @@ theorem readTL1_canonR {R : Bytes → Bytes → Prop} (hR : ByteRel R) (cfg : Cf
                 obtain ⟨x, r⟩ := p
                 simp only [hr] at h
                 injection h with h; injection h with h2 h3; subst h2; subst h3
-                obtain ⟨pre, w, e1, hw, r1⟩ := ih _ _ _ _ _ _ hr
                 obtain ⟨s, nm, _, hv, hgv, hst⟩ := findVariant_spec d tag _ _ _ _ hf
                 simp only [Nat.sub_zero] at hv
+                have hSvi : S vi = true := hrefs _ (by
+                  simp only [Inst.refs]; exact List.mem_map_of_mem (f := (·.1)) (List.mem_of_getElem? hv))
+                obtain ⟨pre, w, e1, hw, r1⟩ := ih _ _ _ _ _ _ hSvi hr
                 obtain ⟨e2, _⟩ := readU32_inv h1
                 refine ⟨u32le tag ++ pre, u32le tag ++ w, by rw [e2, e1, List.append_assoc], ?_, hR.app (hR.refl _) r1⟩
                 simp only [writeTL1, hg, hv, hna]
@@ -447,7 +490,7 @@ theorem readTL1_canonR {R : Bytes → Bytes → Prop} (hR : ByteRel R) (cfg : Cf
                   obtain ⟨vs, r⟩ := p
                   rw [hr] at h
                   injection h with h; injection h with h2 h3; subst h2; subst h3
-                  obtain ⟨pre, w, e1, hw, r1, hl⟩ := readElems_canonical hR ih _ _ _ _ _ _ hr
+                  obtain ⟨pre, w, e1, hw, r1, hl⟩ := readElems_canonical hR ih _ (hrefs _ (by simp [Inst.refs])) _ _ _ _ _ hr
                   refine ⟨pre, w, e1, ?_, r1⟩
                   simp only [writeTL1, hg, hna, ct, if_true, hn]
                   rw [if_neg (by simp [hl])]; exact hw
@@ -465,7 +508,7 @@ theorem readTL1_canonR {R : Bytes → Bytes → Prop} (hR : ByteRel R) (cfg : Cf
                   obtain ⟨vs, r⟩ := p
                   rw [hr] at h
                   injection h with h; injection h with h2 h3; subst h2; subst h3
-                  obtain ⟨pre, w, e1, hw, r1, hl⟩ := readElems_canonical hR ih _ _ _ _ _ _ hr
+                  obtain ⟨pre, w, e1, hw, r1, hl⟩ := readElems_canonical hR ih _ (hrefs _ (by simp [Inst.refs])) _ _ _ _ _ hr
                   obtain ⟨e2, hlt⟩ := readU32_inv h1
                   refine ⟨u32le n ++ pre, u32le n ++ w, by rw [e2, e1, List.append_assoc], ?_, hR.app (hR.refl _) r1⟩
                   simp only [writeTL1, hg, hna, ct]
@@ -473,7 +516,8 @@ theorem readTL1_canonR {R : Bytes → Bytes → Prop} (hR : ByteRel R) (cfg : Cf
                   rfl
       | dict a =>
         rcases hD with hD | hD
-        · exact absurd hg (Desc.noDict_get hD)
+        · have := Desc.allOn_get hD hg hSty
+          simp [Inst.isDict] at this
         · simp only at h
           cases hna : natArgVals [] params a.elem.natArgs with
           | none => simp [hna] at h
@@ -496,7 +540,7 @@ theorem readTL1_canonR {R : Bytes → Bytes → Prop} (hR : ByteRel R) (cfg : Cf
                     obtain ⟨vs, r⟩ := p
                     rw [hr] at h
                     injection h with h; injection h with h2 h3; subst h2; subst h3
-                    obtain ⟨pre, w, e1, hw, r1, hl⟩ := readElems_canonical hR ih _ _ _ _ _ _ hr
+                    obtain ⟨pre, w, e1, hw, r1, hl⟩ := readElems_canonical hR ih _ (hrefs _ (by simp [Inst.refs])) _ _ _ _ _ hr
                     obtain ⟨e2, hlt⟩ := readU32_inv h1
                     obtain ⟨w', hw', hl1, hl2⟩ := dictNormalize_write (writeTL1 d fuel) a.elem na k vs w hw
                     refine ⟨u32le n ++ pre, u32le (dictNormalize k vs).length ++ w', by rw [e2, e1, List.append_assoc], ?_, ?_⟩
